@@ -192,10 +192,13 @@ impl FixtureDatabase {
             fixture_name, file_path
         );
 
+        // Only the last binding of a name in a module is a fixture for pytest; if the
+        // filter rejects it (self-referencing parameter) the module provides nothing.
         if let Some(last_def) = definitions
             .iter()
-            .filter(|def| def.file_path == file_path && filter(def))
+            .filter(|def| def.file_path == file_path)
             .max_by_key(|def| def.line)
+            .filter(|def| filter(def))
         {
             info!(
                 "Found fixture {} in same file at line {}",
